@@ -1,11 +1,13 @@
 """C03 — forward results agree with NumPy in value, shape and dtype."""
+from checks.C11 import _replay as _dispatch_replay
 from lib.checkdef import default_replay_cmd, run_property
 
 
 def run(tier, seed):
     return run_property(
         "C03", tier, seed, level="other",
-        deductive=[("c03_wrap", None), ("c03_wrappers", None), ("c_op", r"^C03\.")],
+        deductive=[("c03_wrap", None), ("c03_wrappers", None), ("c_op", r"^C03\."), ("c11_dispatch", r"\[(bool|const|nodiff),.*(tensors_unwrapped|out_unwrapped|other_keywords|exactly_one_call|returns_callee_result)")],
+        replay=_dispatch_replay,
         bounded=[("api_bounded.py", ["--check", "C03"])],
         trusted=["NumPy itself is the oracle of the bounded part", "pyvc executor's model of keyword passing (**kwargs dicts, defaults)"],
         assumptions=[
